@@ -50,6 +50,8 @@ def generation_only(rep, pest):
     deep = {}
     for op, shape in (("*", '({} ~ "b")*'), ("?", '({} ~ "b")?'), ("|", '({} | "b")'), ("+", '({} ~ "b")+'), ("{2}", '({} ~ "b"){{2}}'), ("&", '&({} ~ "b")'), ("PUSH", 'PUSH({} ~ "b")')):
         for d in (8, 16, 20, 21, 24, 32):
+            if op in ("+", "{2}") and d > 8:
+                continue  # e+ and e{2} are their unrolled sequences: nesting them doubles the term at every level
             e = '"a"'
             for _ in range(d):
                 e = shape.format(e)
@@ -61,7 +63,7 @@ def generation_only(rep, pest):
                         M.Generated(p.generate())
                 except Exception as e2:  # noqa: BLE001
                     msg = f"{type(e2).__name__}: {e2}"
-                    if isinstance(e2, SyntaxError) and "too many statically nested blocks" in msg and d > 20 and op in ("*", "+"):
+                    if isinstance(e2, SyntaxError) and "too many statically nested blocks" in msg and d > 20 and op == "*":
                         # CPython allows 20 statically nested loops / with blocks in one function
                         rep.known_finding("gen-nested-loops", f"{d} nested ({op}) groups, optimized={opt}: {msg[:120]}")
                     else:
